@@ -72,7 +72,7 @@ def facts(src):
                     'timeout_cmp': vals['timeout_cmp'], 'reissue_cmp': vals['reissue_cmp'],
                     'limit_cmp': vals['limit_cmp'], 'cookie_limit': vals['cookie_limit'],
                     'flash_prefix': vals['flash_prefix'], 'csrf_key': vals['csrf_key'],
-                    'payload_fields': vals['payload_fields']})
+                    'payload_fields': vals['payload_fields'], 'canonical_check': vals.get('canonical_check', False)})
     _F.update(vals)
     # the control flow of the session code, regenerated from the source (harness/c10/translate.py)
     gen, tproblems, tsummary = translate.translate_tree(src, vals.get('urandom_n', 20))
@@ -196,7 +196,7 @@ class _OS:
         return b
 
 
-SAFE_COOKIE = re.compile(r'^[A-Za-z0-9_\-]+$')
+SAFE_COOKIE = re.compile(r'\A[A-Za-z0-9_\-]+\Z')     # \Z: '$' would accept a trailing newline
 
 
 def _serializer(o, **over):
@@ -214,6 +214,11 @@ def _factory(o):
     if o.get('defaults'):
         kw = {}
     return _impl['ps'].SignedCookieSessionFactory(o['secret'], **kw)
+
+
+# sources that are an alteration of the cookie most recently set (edits of its text, or its payload under another
+# secret / salt / algorithm): the property demands a new empty session whenever the resulting text differs
+ALTERING = ('flip', 'trunc', 'append', 'insert', 'swapalpha', 'lastbits', 'other-secret', 'other-salt', 'other-alg')
 
 
 def materialise(src, last, history, o):
@@ -242,6 +247,25 @@ def materialise(src, last, history, o):
         return last[:-n] if src.get('end', True) else last[n:]
     if k == 'append':
         return last + src['text']
+    if k == 'insert':                       # characters put in anywhere (also inside the signature part)
+        p = src['pos'] % (len(last) + 1)
+        return last[:p] + src['text'] + last[p:]
+    if k == 'swapalpha':                    # the standard alphabet's '+' '/' for urlsafe '-' '_' (first n occurrences)
+        out, n = [], src.get('n', 10 ** 6)
+        for ch in last:
+            if ch in '-_' and n > 0:
+                out.append({'-': '+', '_': '/'}[ch])
+                n -= 1
+            else:
+                out.append(ch)
+        return ''.join(out)
+    if k == 'lastbits':                     # the bits of the final character that carry no data
+        m = len(last) % 4
+        if m not in (2, 3):
+            return last
+        al = 'ABCDEFGHIJKLMNOPQRSTUVWXYZabcdefghijklmnopqrstuvwxyz0123456789-_'
+        v = al.index(last[-1])
+        return last[:-1] + al[v ^ (1 + src.get('bit', 0) % (3 if m == 2 else 1))]
     if k in ('other-secret', 'other-salt', 'other-alg'):
         ss = _serializer(o)
         try:
@@ -549,7 +573,7 @@ def _oracle(key, alg, ds, texts, payloads=()):
             dess.append([cs, [tj(v)]])
         except Unmodelled:
             pass
-    return [ds, macs, unbs, dess]
+    return [ds, macs, [], dess]        # base64 decoding is done by the Gallina b64dec (no table)
 
 
 def to_wire(case):
@@ -565,10 +589,12 @@ def to_wire(case):
     for r, ob in zip(case['reqs'], ch['obs'][0]):
         k = r['src']['kind']
         text = materialise(r['src'], last, history, o)
-        if k == 'last':
-            s = [0]
+        if k == 'last' or (k in ALTERING and text is not None and text == last):
+            s = [0]                          # the cookie last set itself (an "edit" that changed nothing)
         elif text is None:
             s = []
+        elif k in ALTERING:
+            s = [text, 1]                    # an ALTERED cookie: the text differs from the one last set
         else:
             s = [text]
         reqs.append([s, ticks(r['t']), [[op_wire(op), ticks(op['t'])] for op in r['ops']], 1 if r.get('exc') else 0])
@@ -640,19 +666,62 @@ def spec_holds(case, obs, spec):
     return True if constrained else None
 
 
-def classify(case, obs, spec):
-    """C10-ior-unwrapped: the deviation disappears when every `session |= m` is written `session.update(m)`
-    (same data effect, same specification), i.e. it is exactly the missing wrapper of dict.__ior__."""
-    if not any(op['op'] == 'ior' for r in case['reqs'] for op in r['ops']):
-        return None
-    c2 = json.loads(json.dumps(case))
-    for r in c2['reqs']:
-        for op in r['ops']:
-            if op['op'] == 'ior':
-                op['op'] = 'update'
+def _decode(text):
+    """bytes the real library decodes a cookie text to (None = refused before the signature check)"""
     try:
-        if spec_holds(c2, run_impl(c2), spec) is True:
-            return 'C10-ior-unwrapped'
+        b = text.encode('latin-1')
+        return base64.urlsafe_b64decode(b + b'=' * (-len(b) % 4))
+    except (binascii.Error, TypeError, ValueError):
+        return None
+
+
+_runner = []
+
+
+def _spec_of(case):
+    """specification of another case, from the extracted Coq development (classify has no runner of its own)"""
+    from harness.common.main import Runner
+    from harness.common.wire import canon
+    if not _runner:
+        _runner.append(Runner(os.path.join(_build.BUILD, ID, 'runner')))
+    d = from_wire(case, _runner[0].one(to_wire(case)))
+    return canon(d['spec']) if d.get('spec') is not None else None
+
+
+def classify(case, obs, spec):
+    """C10-ior-unwrapped: the deviation disappears when every `session |= m` is written `session.update(m)`.
+    C10-lenient-base64-edit-accepted: every deviation disappears -- and the implementation's observations stay
+    EXACTLY the same -- when each altered cookie text that the real base64 decoder maps to the same bytes as the
+    cookie last set is replaced by that cookie itself."""
+    if any(op['op'] == 'ior' for r in case['reqs'] for op in r['ops']):
+        c2 = json.loads(json.dumps(case))
+        for r in c2['reqs']:
+            for op in r['ops']:
+                if op['op'] == 'ior':
+                    op['op'] = 'update'
+        try:
+            if spec_holds(c2, run_impl(c2), spec) is True:
+                return 'C10-ior-unwrapped'
+        except Exception:
+            pass
+    try:
+        c2 = json.loads(json.dumps(case))
+        last, history, changed = None, [], False
+        for r, r2, ob in zip(case['reqs'], c2['reqs'], obs[0]):
+            if r['src']['kind'] in ALTERING:
+                text = materialise(r['src'], last, history, case['opts'])
+                if text is not None and last is not None and text != last:
+                    d = _decode(text)
+                    if d is not None and d == _decode(last):
+                        r2['src'] = {'kind': 'last'}
+                        changed = True
+            if ob[0] == 0 and ob[4][0] == 1:
+                last = ob[4][1]
+                history.append(last)
+        if changed:
+            obs2 = run_impl(c2)
+            if obs2 == obs and spec_holds(c2, obs2, _spec_of(c2)) is True:
+                return 'C10-lenient-base64-edit-accepted'
     except Exception:
         pass
     return None
